@@ -65,6 +65,8 @@ class CFG:
             return self._cond(s['sub'], f, t)
         if k == 'CXXOperatorCallExpr' and s.get('oop') == '!' and len(s.get('args') or []) == 1 and not s.get('cq'):
             return self._cond(s['args'][0], f, t)
+        if k == 'CallExpr' and A.callee_name(s) == '__builtin_expect' and s.get('args'):
+            return self._cond(A.strip(s['args'][0], casts=True), t, f)
         n = self._new('cond', ast=s)
         c = A.const(s) if self.prune else None
         if c is None or c:
